@@ -55,6 +55,22 @@ func condAtoms(v ssa.Value, truth bool, subst map[*ssa.Parameter]string, ifi *ss
 				for _, pair := range [][2]ssa.Value{{x.X, x.Y}, {x.Y, x.X}} {
 					cst, isNil := pair[1].(*ssa.Const)
 					call, isCall := pair[0].(*ssa.Call)
+					if ex, isEx := pair[0].(*ssa.Extract); isEx && isNil && cst.Value == nil && op == "==" && ex.Index == 1 {
+						if pc, ok := ex.Tuple.(*ssa.Call); ok {
+							if cc := pc.Call.StaticCallee(); cc != nil && validatedProducer(cc) {
+								ns := map[*ssa.Parameter]string{}
+								for i, p := range cc.Params {
+									if i < len(pc.Call.Args) {
+										ns[p] = exprDepth(pc.Call.Args[i], subst, 0)
+									}
+								}
+								l, r := exprDepth(x.X, subst, 0), exprDepth(x.Y, subst, 0)
+								at := []Atom{{L: l, Op: op, R: r, If: ifi}}
+								valE := strings.TrimSuffix(exprDepth(ex, subst, 0), "#1") + "#0"
+								return append(at, impliedProducerAtoms(cc, ns, valE, ifi, depth+1)...)
+							}
+						}
+					}
 					if isNil && cst.Value == nil && isCall && op == "==" {
 						if cc := call.Call.StaticCallee(); cc != nil && errorValidator(cc) {
 							ns := map[*ssa.Parameter]string{}
@@ -813,6 +829,22 @@ func errorValidator(fn *ssa.Function) bool {
 	if fn.Signature.Results().Len() != 1 || fn.Signature.Results().At(0).Type().String() != "error" {
 		return false
 	}
+	return effectFreeNoLoops(fn)
+}
+
+// validatedProducer: a loop-free, effect-free module function returning (T, error): when its error is nil the
+// value it returns satisfies whatever dominated that return (parseByte: Atoi succeeded and validateByte passed).
+func validatedProducer(fn *ssa.Function) bool {
+	if fn == nil || len(fn.Blocks) == 0 || fn.Pkg == nil || !strings.HasPrefix(fn.Pkg.Pkg.Path(), ModPath) {
+		return false
+	}
+	if fn.Signature.Results().Len() != 2 || fn.Signature.Results().At(1).Type().String() != "error" {
+		return false
+	}
+	return effectFreeNoLoops(fn)
+}
+
+func effectFreeNoLoops(fn *ssa.Function) bool {
 	for _, b := range fn.Blocks {
 		if NaturalLoop(b) != nil {
 			return false
@@ -882,6 +914,86 @@ func impliedNilAtoms(fn *ssa.Function, subst map[*ssa.Parameter]string, ifi *ssa
 		}
 	})
 	if len(sets) == 0 {
+		return nil
+	}
+	count := map[string]int{}
+	first := map[string]Atom{}
+	for _, st := range sets {
+		seen := map[string]bool{}
+		for _, a := range st {
+			k := a.String()
+			if !seen[k] {
+				seen[k] = true
+				count[k]++
+				if _, ok := first[k]; !ok {
+					first[k] = a
+				}
+			}
+		}
+	}
+	var out []Atom
+	for k, n := range count {
+		if n == len(sets) {
+			a := first[k]
+			a.If = ifi
+			out = append(out, a)
+		}
+	}
+	sort.Slice(out, func(i, j int) bool { return out[i].String() < out[j].String() })
+	return out
+}
+
+// impliedProducerAtoms: the atoms about the first result of fn (rendered valE at the call site) that hold on
+// every return of fn with a constant nil error.
+func impliedProducerAtoms(fn *ssa.Function, subst map[*ssa.Parameter]string, valE string, ifi *ssa.If, depth int) []Atom {
+	var sets [][]Atom
+	unknown := false
+	Instrs(fn, func(in ssa.Instruction) {
+		r, ok := in.(*ssa.Return)
+		if !ok || len(r.Results) != 2 {
+			return
+		}
+		cst, isC := r.Results[1].(*ssa.Const)
+		if isC && cst.Value == nil {
+			inner := exprDepth(r.Results[0], subst, 0)
+			var st []Atom
+			for _, a := range factsAtBlockSubst(r.Block(), subst, depth) {
+				switch {
+				case a.L == inner:
+					a.L = valE
+					st = append(st, a)
+				case a.R == inner:
+					a.R = valE
+					st = append(st, a)
+				}
+			}
+			sets = append(sets, st)
+			return
+		}
+		if !isC {
+			// a computed error: non-nil when built on the spot, otherwise nothing is known
+			nonNil := false
+			if call, isCall := r.Results[1].(*ssa.Call); isCall {
+				if sc := call.Call.StaticCallee(); sc != nil && sc.Pkg != nil {
+					n := sc.Pkg.Pkg.Path() + "." + sc.Name()
+					nonNil = n == "fmt.Errorf" || n == "errors.New"
+				}
+			}
+			if _, isMI := r.Results[1].(*ssa.MakeInterface); isMI {
+				nonNil = true
+			}
+			// returning the error of a failed callee (err != nil on this path)
+			for _, a := range factsAtBlockSubst(r.Block(), subst, depth) {
+				if a.L == exprDepth(r.Results[1], subst, 0) && a.Op == "!=" && a.R == "nil" {
+					nonNil = true
+				}
+			}
+			if !nonNil {
+				unknown = true
+			}
+		}
+	})
+	if unknown || len(sets) == 0 {
 		return nil
 	}
 	count := map[string]int{}
